@@ -31,6 +31,25 @@ def run(ctx):
                               "a task left the documented lifecycle, a cancelled task kept its placement or started, or a "
                               "graph was (not) reported finished against the state of its sinks")
     ctx.cov.setdefault("input_distribution", {})["starts_matching_known_finding_FTG3"] = len(seen)
+    # ---- the TASK_CANCEL handler as a function of the machine-with-queue state (Model/SimHandlers.v)
+    import core
+    import simcommon
+    ctx.build("C06_handlers", deps=["Model/Sim.v", "Model/SimQ.v", "Model/SimRows.v", "Model/SimHandlers.v"])
+    ctx.rules.append("S-cancel-handlers: every TASK_CANCEL event handled in the S-sim runs: the pending TASK_PLACEMENT event the "
+                     "handler removes (or none), computed by Model/SimHandlers.v from the machine-with-queue state, compared inside "
+                     "Coq with the removal observed on the simulator's own EventQueue")
+    try:
+        worlds_, runs_ = simcommon.cached_runs(ctx)
+        cm, cfed = simcommon.cancels_stream(ctx, worlds_, runs_)
+        for (i, mv, exp) in cm[:3]:
+            if not (isinstance(mv, list) and mv and mv[0] == 1):
+                continue            # the machine rejected the log: the S-sim / S-simq ties report that
+            ctx.violation("cancel_handler_world%d" % i, {
+                "stream": "S-cancel-handlers", "world": worlds_[i], "model": mv, "implementation": exp,
+                "what": "a TASK_CANCEL handler did not remove exactly the pending placement event of the cancelled task "
+                        "(per handler: time of the removed TASK_PLACEMENT event or null)"})
+    except core.ModelEvalError as e:
+        ctx.broken.append({"kind": "correspondence", "name": "S-cancel-handlers (handler model does not evaluate)", "detail": str(e)[-500:]})
     replay_known(ctx)
     if os.path.exists(os.path.join(os.path.dirname(__file__), "c06_closure.py")):
         part = importlib.import_module("props.c06_closure")
